@@ -218,11 +218,22 @@ def coq_phase(ctx, props_file, cone_files, model_targets):
             bad_ax = [a for a in axioms if a not in ALLOWED_AXIOMS]
             if bad_ax:
                 broken.append({"kind": "axiom-audit", "where": props_file, "error": "theorems depend on axioms: " + ", ".join(bad_ax)})
+    coqchk = "not run (quick tier)"
+    if ok_props and ctx.tier == "thorough":
+        # independent re-check of the compiled property module and everything it depends on
+        mod = "GS." + props_file[:-2].replace("/", ".")
+        p = ctx.sh(["coqchk", "-silent", "-o", "-Q", COQ, "GS", mod], check=False, timeout=3000)
+        outc = p.stdout or ""
+        if p.returncode != 0 or "* Axioms: <none>" not in outc or "type-in-type: <none>" not in outc or "unsafe (co)fixpoints: <none>" not in outc or "positivity is assumed: <none>" not in outc:
+            broken.append({"kind": "axiom-audit", "where": mod, "error": "coqchk does not confirm an axiom-free, fully checked module: " + outc[-600:]})
+            coqchk = "FAILED"
+        else:
+            coqchk = "coqchk -silent -o: Axioms <none>, no type-in-type, no unsafe fixpoints, no assumed positivity"
     cone = [f for f in cone_files if os.path.exists(os.path.join(COQ, f))]
     bad = ctx.audit_sources(cone)
     if bad:
         broken.append({"kind": "source-audit", "where": ", ".join(bad), "error": "forbidden vernacular in the development"})
-    return dict(broken=broken, closed=closed, axioms=axioms, n_qed=ctx.count_qed(cone), ok_model=ok_model, ok_props=ok_props)
+    return dict(broken=broken, closed=closed, axioms=axioms, n_qed=ctx.count_qed(cone), ok_model=ok_model, ok_props=ok_props, coqchk=coqchk)
 
 
 def parse_case_mismatches(results):
@@ -270,7 +281,7 @@ def conclude(ctx, cq, violations, broken_extra, coverage, assumptions, checker_c
         "checker_cmd": checker_cmd,
         "trusted_base": TRUSTED_BASE_COMMON + [model_note,
                                                f"Print Assumptions: {cq['closed']} theorems closed under the global context, axioms: {cq['axioms'] or 'none'}"],
-        "property_theorems": cq["closed"], "axioms": cq["axioms"], "broken": broken,
+        "property_theorems": cq["closed"], "axioms": cq["axioms"], "coqchk": cq.get("coqchk", "not run"), "broken": broken,
         "known_findings_seen": {k: c for k, (_, c) in known_seen.items()}, "repo": ctx.repo_rev(),
     })
     ctx.write_evidence(cov, assumptions, nviol)
